@@ -201,6 +201,11 @@ impl Prop for C16 {
     for (name, def, src) in [
       ("arity-few", "two(x<u64>, y<u64>) => <u64>\n  | (x, y) => x + y.", "two(1u64)"),
       ("arity-many", "one(x<u64>) => <u64>\n  | n => n.", "one(1u64, 2u64)"),
+      ("arity-many-wildcard-arm", "onew(x<u64>) => <u64>\n  | * => 7u64.", "onew(1u64, 2u64)"),
+      ("arity-many-statement-body", "g(x<f64>) = z<f64> :=\n    z := x + 1.", "g(1, 2)"),
+      ("arity-few-statement-body", "g2(x<f64>, y<f64>) = z<f64> :=\n    z := x + y.", "g2(1)"),
+      ("arity-many-tuple-arm", "two3(x<u64>, y<u64>) => <u64>\n  | (x, y) => x + y\n  | * => 9u64.", "two3(1u64, 2u64, 3u64)"),
+      ("arity-many-recursive", "cnt(n<u64>) => <u64>\n  | 0 => 0\n  | * => 99u64.", "cnt(0u64, 0u64)"),
       ("no-matching-arm", "only-zero(x<u64>) => <u64>\n  | 0 => 1.", "only-zero(3u64)"),
       ("no-matching-arm-tuple", "only-diag(x<u64>, y<u64>) => <u64>\n  | (0, 0) => 1\n  | (1, 1) => 2.", "only-diag(0u64, 1u64)"),
       ("match-without-wildcard", "", "r := 2u64?\n  | 1 => 300u64."),
